@@ -84,7 +84,7 @@ def unguarded_path(e, g, site, alternatives, start=None):
     for p, k in alts:
         paths |= set(key_paths(k))
 
-    nul = Nullness(g)
+    nul = Nullness(g, e)
 
     def step(n, label, st0):
         st, ns = st0
@@ -360,6 +360,80 @@ def class_constants(e, cls_qname: str):
             for t in st.targets:
                 if isinstance(t, _ast.Name):
                     out[t.id] = st.value.value
+        elif isinstance(st, _ast.Assign) and len(st.targets) == 1 and \
+                isinstance(st.targets[0], (_ast.Tuple, _ast.List)) and all(
+                    isinstance(t, _ast.Name) for t in st.targets[0].elts):
+            names = [t.id for t in st.targets[0].elts]
+            v = st.value
+            vals = None
+            if isinstance(v, (_ast.Tuple, _ast.List)) and all(
+                    isinstance(x, _ast.Constant) for x in v.elts):
+                vals = [x.value for x in v.elts]
+            elif isinstance(v, _ast.Call) and isinstance(v.func, _ast.Name) \
+                    and v.func.id == 'range' and len(v.args) == 1 and \
+                    isinstance(v.args[0], _ast.Constant) and \
+                    isinstance(v.args[0].value, int):
+                # A, B, C = range(3)
+                vals = list(range(v.args[0].value))
+            if vals is not None and len(vals) == len(names):
+                out.update(zip(names, vals))
+    return out
+
+
+def derived_paths(g, seeds):
+    """Paths of locals whose value is computed from one of `seeds`
+    (canonical paths), transitively, by an assignment somewhere in g."""
+    import ast as _ast
+    import re as _re
+    from ..facts import path_of, canon
+    out = set(seeds)
+    assigns = []
+    for n in g.of_kind('stmt'):
+        if isinstance(n.ast, _ast.Assign):
+            try:
+                text = canon(n.ast.value, n.frame)
+            except Exception:
+                text = _ast.unparse(n.ast.value)
+            tps = []
+            for t in n.ast.targets:
+                for el in (t.elts if isinstance(t, (_ast.Tuple, _ast.List))
+                           else [t]):
+                    q = path_of(el, n.frame)
+                    if q:
+                        tps.append(q)
+            assigns.append((tps, text))
+
+    def mentions(text, p):
+        return _re.search(_re.escape(p) + r'(?![\w#])', text) is not None
+    changed = True
+    while changed:
+        changed = False
+        for tps, text in assigns:
+            if any(mentions(text, p) for p in out):
+                for q in tps:
+                    if q not in out:
+                        out.add(q)
+                        changed = True
+    return out - set(seeds)
+
+
+def opaque_tests(w, derived):
+    """tests on the witness path w that look at a value computed from the
+    classified one (a tag, a flag): the path may be infeasible for reasons
+    this analysis cannot see"""
+    import re as _re
+    from ..facts import canon
+    out = []
+    for n, label in w or []:
+        if n.kind != 'test':
+            continue
+        try:
+            text = canon(n.ast, n.frame)
+        except Exception:
+            continue
+        if any(_re.search(_re.escape(p) + r'(?![\w#])', text)
+               for p in derived):
+            out.append(n)
     return out
 
 
@@ -397,10 +471,12 @@ class Nullness:
     the string 'infeasible'.  Component: dict-like frozenset of
     (var path, 'none'|'obj') plus ('$ret', ...) for the value in flight."""
 
-    def __init__(self, g):
+    def __init__(self, g, e=None):
         import ast as _ast
         from ..facts import path_of
         self.g = g
+        self.e = e
+        self._cc = {}
         self.assign_of_call = {}     # id(call ast) -> var path
         for n in g.of_kind('stmt'):
             if isinstance(n.ast, _ast.Assign) and \
@@ -434,6 +510,9 @@ class Nullness:
             if v is None or (isinstance(v, _ast.Constant) and
                              v.value is None):
                 return self._set(st, '$ret', 'none')
+            cv = self._const(v, n.frame)
+            if cv is not None:
+                return self._set(st, '$ret', cv)
             if isinstance(v, (_ast.Call, _ast.Tuple, _ast.List, _ast.Dict)) \
                     or (isinstance(v, _ast.Constant) and v.value is not None):
                 # a call result is not known to be None; containers and
@@ -443,23 +522,26 @@ class Nullness:
             return self._set(st, '$ret', None)
         if n.kind == 'stmt' and isinstance(n.ast, _ast.Assign) and \
                 id(n.ast.value) in self.assign_of_call:
+            # (threading may have made several copies of the statement)
             var, node = self.assign_of_call[id(n.ast.value)]
-            if node is n:
-                r = self._get(st, '$ret')
-                st = self._set(st, '$ret', None)
-                return self._set(st, var, r)
+            r = self._get(st, '$ret')
+            st = self._set(st, '$ret', None)
+            return self._set(st, var, r)
         if n.kind == 'stmt' and isinstance(n.ast, _ast.Assign):
             from ..facts import path_of
             v = n.ast.value
             val = None
-            if isinstance(v, _ast.Constant):
-                val = 'none' if v.value is None else 'obj'
+            if self._const(v, n.frame) is not None:
+                val = self._const(v, n.frame)
             elif isinstance(v, (_ast.Tuple, _ast.List, _ast.Dict, _ast.Set)):
                 val = 'obj'
             for t in n.ast.targets:
                 if isinstance(t, _ast.Name):
                     st = self._set(st, path_of(t, n.frame), val)
         if n.kind == 'test' and label in ('T', 'F'):
+            r = self._eval(n.ast, n.frame, st)
+            if r is not None and r != (label == 'T'):
+                return 'infeasible'
             for pol, k in atoms_of_test(n.ast, label == 'T', n.frame):
                 for var, val in list(st):
                     if var.startswith('$') or val not in ('none', 'obj'):
@@ -472,6 +554,111 @@ class Nullness:
                         if val == 'none' and pol:
                             return 'infeasible'
         return st
+
+
+def _nullness_const(self, v, frame):
+    """('c', repr) for a literal or a class constant spelt self.X / cls.X /
+    Class.X; 'none' for None; otherwise None (not a known constant)"""
+    import ast as _ast
+    if isinstance(v, _ast.Constant):
+        return 'none' if v.value is None else ('c', repr(v.value))
+    if isinstance(v, _ast.Attribute) and isinstance(v.value, _ast.Name) and \
+            self.e is not None:
+        fc = frame.ctx.func.cls
+        cq = fc.qname if fc is not None else frame.ctx.self_cls
+        if not cq:
+            return None
+        cls_name = cq.rpartition('.')[2]
+        if v.value.id not in ('self', 'cls', cls_name):
+            return None
+        if cq not in self._cc:
+            self._cc[cq] = class_constants(self.e, cq)
+            # an attribute that is also assigned elsewhere is no constant
+            import ast as __ast
+            c = self.e.p.classes.get(cq)
+            for f in (c.methods.values() if c else []):
+                for x in __ast.walk(f.node):
+                    if isinstance(x, __ast.Attribute) and \
+                            isinstance(x.ctx, (__ast.Store, __ast.Del)):
+                        self._cc[cq].pop(x.attr, None)
+        if v.attr in self._cc[cq]:
+            val = self._cc[cq][v.attr]
+            return 'none' if val is None else ('c', repr(val))
+    return None
+
+
+def _nullness_value(self, x, frame, st):
+    from ..facts import path_of
+    cv = self._const(x, frame)
+    if cv is not None:
+        return cv
+    q = path_of(x, frame)
+    if q:
+        return self._get(st, q)
+    return None
+
+
+def _nullness_eval(self, t, frame, st):
+    """three-valued evaluation of a branch test over the tracked values"""
+    import ast as _ast
+    if isinstance(t, _ast.UnaryOp) and isinstance(t.op, _ast.Not):
+        r = self._eval(t.operand, frame, st)
+        return None if r is None else not r
+    if isinstance(t, _ast.BoolOp):
+        rs = [self._eval(v, frame, st) for v in t.values]
+        if isinstance(t.op, _ast.And):
+            if any(r is False for r in rs):
+                return False
+            return True if all(r is True for r in rs) else None
+        if any(r is True for r in rs):
+            return True
+        return False if all(r is False for r in rs) else None
+    if isinstance(t, _ast.Compare) and len(t.ops) == 1:
+        op = t.ops[0]
+        lv = self._value(t.left, frame, st)
+        rt = t.comparators[0]
+        if isinstance(op, (_ast.In, _ast.NotIn)):
+            if not isinstance(rt, (_ast.Tuple, _ast.List, _ast.Set)):
+                return None
+            members = [self._const(x, frame) for x in rt.elts]
+            if lv is None or lv in ('obj', 'obj?') or \
+                    any(m is None for m in members):
+                return None
+            r = lv in members
+            return r if isinstance(op, _ast.In) else not r
+        rv = self._value(rt, frame, st)
+        if lv is None or rv is None:
+            return None
+        known = lambda v: v == 'none' or isinstance(v, tuple)
+        if isinstance(op, (_ast.Is, _ast.IsNot)):
+            if rv == 'none' and lv in ('obj', 'none') or (
+                    rv == 'none' and isinstance(lv, tuple)):
+                r = lv == 'none'
+            elif lv == 'none' and (rv == 'obj' or isinstance(rv, tuple)):
+                r = False
+            else:
+                return None
+            return r if isinstance(op, _ast.Is) else not r
+        if isinstance(op, (_ast.Eq, _ast.NotEq)):
+            if not (known(lv) and known(rv)):
+                return None
+            r = lv == rv
+            return r if isinstance(op, _ast.Eq) else not r
+        return None
+    v = self._value(t, frame, st)
+    if v == 'none':
+        return False
+    if isinstance(v, tuple):
+        try:
+            return bool(eval(v[1], {'__builtins__': {}}))
+        except Exception:
+            return None
+    return None
+
+
+Nullness._const = _nullness_const
+Nullness._value = _nullness_value
+Nullness._eval = _nullness_eval
 
 
 def _timer_started(e, func_node, name, ctx):
